@@ -562,7 +562,7 @@ func runPrimary(c *common.Ctx, cf *common.CaseFile, sc pScript, root string, idx
 	}
 	// watch the role
 	end := time.Time{}
-	limit := time.Now().Add(6 * time.Second)
+	limit := time.Now().Add(time.Duration(sc.TTL)*time.Millisecond + 3*time.Second)
 	for time.Now().Before(limit) {
 		if !s.IsPrimary() {
 			end = time.Now()
@@ -825,6 +825,8 @@ func Run(c *common.Ctx) error {
 		{Name: "renew-errors", Renew: []string{"err", "err", "err", "err"}, Model: "PRenewErr; PRenewErr; PRenewErr", WantEnd: 3000},
 		// TTLs that are not a multiple of the retry interval: the role is held for what is left of the TTL, not for another full second
 		{Name: "renew-errors-ttl-2200", TTL: 2200, Renew: []string{"err", "err", "err", "err"}, Model: "PRenewErr; PRenewErr; PRenewErr", WantEnd: 2200},
+		// a long TTL: the retries come every second all the way (a retry schedule that backs off would jump over the deadline)
+		{Name: "renew-errors-ttl-10000", TTL: 10000, Renew: []string{"err", "err", "err", "err", "err", "err", "err", "err", "err", "err", "err", "err"}, Model: "PRenewErr; PRenewErr; PRenewErr; PRenewErr; PRenewErr; PRenewErr", WantEnd: 10000},
 		{Name: "renew-ok-then-errors-ttl-1400", TTL: 1400, Renew: []string{"ok", "err", "err", "err"}, Model: "PRenewOk; PRenewErr; PRenewErr; PRenewErr", WantEnd: 1400},
 		{Name: "renew-ok-then-errors", Renew: []string{"ok", "err", "err", "err"}, Model: "PRenewOk; PRenewErr; PRenewErr; PRenewErr", WantEnd: 3000},
 		{Name: "renew-error-then-ok", Renew: []string{"err", "ok", "ok", "ok", "ok", "ok", "ok", "ok"}, Model: "PRenewErr; PRenewOk; PRenewOk", WantEnd: 0},
